@@ -169,3 +169,60 @@ func TestC03Comparators(t *testing.T) {
 		t.Errorf("multiset equality must count duplicates")
 	}
 }
+
+func TestRegisterModel(t *testing.T) {
+	table := rowsOf(t, `[{"id":1,"a":10,"b":"s"},{"id":2,"a":0,"b":null},{"id":3,"a":20,"b":"t"}]`)
+	eq := func(name string, got []any, want string) {
+		t.Helper()
+		if canonText(got) != canonText(rowsOf(t, want)) {
+			t.Errorf("%s:\n got %s\nwant %s", name, canonText(got), want)
+		}
+	}
+	// SELECT GETVAR('k') AS g0, SETVAR('k', a), GETVAR('k') AS g2 FROM t : reads see the previous row's write, then their own row's
+	model := map[string]any{}
+	q := &c20Query{WhereK: -1, Items: []c20Item{{Kind: "get", Key: "k", Alias: "g0"}, {Kind: "set", Key: "k", VKind: "col", VCol: "a"}, {Kind: "get", Key: "k", Alias: "g2"}}}
+	r1, r2 := c20Model(q, table, model)
+	eq("read-write-read", r1, `[{"g0":null,"g2":10},{"g0":10,"g2":0},{"g0":0,"g2":20}]`)
+	if r2 != nil || model["k"] != 20.0 {
+		t.Errorf("after one Exec: rows2=%v k=%v", r2, model["k"])
+	}
+	// WHERE a >= 10 skips row 2 entirely; the same query executed twice continues from the register
+	model = map[string]any{"k": "init"}
+	q = &c20Query{WhereK: 10, Twice: true, Items: []c20Item{{Kind: "get", Key: "k", Alias: "g0"}, {Kind: "set", Key: "k", VKind: "sum"}}}
+	r1, r2 = c20Model(q, table, model)
+	eq("first exec", r1, `[{"g0":"init"},{"g0":11}]`)
+	eq("second exec", r2, `[{"g0":23},{"g0":11}]`)
+	if model["k"] != 23.0 {
+		t.Errorf("k=%v", model["k"])
+	}
+	// awaited reads and writes happen after the last row, in (row, item) order:
+	// SELECT id, AWAIT(GETVAR('k')) AS w, SETVAR('k', id), AWAIT(SETVAR('k', 9)) FROM t
+	model = map[string]any{}
+	q = &c20Query{WhereK: -1, Items: []c20Item{{Kind: "col", Col: "id"}, {Kind: "await_get", Key: "k", Alias: "w"}, {Kind: "set", Key: "k", VKind: "col", VCol: "id"}, {Kind: "await_set", Key: "k", VKind: "num", VNum: 9}}}
+	r1, _ = c20Model(q, table, model)
+	// main pass leaves k=3; deferred: row1 read -> 3, row1 write 9, row2 read -> 9, ...
+	eq("awaited", r1, `[{"id":1,"w":3},{"id":2,"w":9},{"id":3,"w":9}]`)
+	if model["k"] != 9.0 {
+		t.Errorf("k=%v", model["k"])
+	}
+	// a nested select writes the same context; CASE writes only in the arm taken; FROM dual is one row
+	model = map[string]any{}
+	q = &c20Query{WhereK: -1, Items: []c20Item{{Kind: "setsub", Key: "k", VKind: "num", VNum: 5, Key2: "k", Alias: "t0"}, {Kind: "case_set", Key: "hi", Key2: "lo", CaseK: 10}, {Kind: "if_get", Key: "hi", Key2: "lo", CaseK: 10, Alias: "i2"}}}
+	r1, _ = c20Model(q, table, model)
+	eq("nested-and-case", r1, `[{"t0":{"g2":5},"i2":10},{"t0":{"g2":5},"i2":2},{"t0":{"g2":5},"i2":20}]`)
+	if model["hi"] != 20.0 || model["lo"] != 2.0 || model["k"] != 5.0 {
+		t.Errorf("registers: %v", model)
+	}
+	model = map[string]any{"k": true}
+	q = &c20Query{WhereK: -1, Dual: true, Items: []c20Item{{Kind: "get", Key: "k", Alias: "g"}, {Kind: "set", Key: "k", VKind: "null"}}}
+	r1, _ = c20Model(q, table, model)
+	eq("dual", r1, `[{"g":true}]`)
+	if v, ok := model["k"]; !ok || v != nil {
+		t.Errorf("k must hold NULL: %v %v", v, ok)
+	}
+	// rows that are arrays: the result has the nesting of the source, rows are still evaluated in order
+	model = map[string]any{}
+	q = &c20Query{WhereK: 10, Grid: true, Items: []c20Item{{Kind: "get", Key: "k", Alias: "g"}, {Kind: "set", Key: "k", VKind: "col", VCol: "id"}}}
+	r1, _ = c20Model(q, table, model)
+	eq("grid", r1, `[[{"g":null}],[{"g":1}]]`)
+}
